@@ -217,6 +217,25 @@ func (an *Analysis) atomOf(v ssa.Value, depth int) (*Atom, bool) {
 				if isPtrToNamed(fa.X.Type(), an.A.FreshT) && fa.Field == an.A.FreshStale {
 					return &Atom{Key: "fr.stale"}, false
 				}
+				if al, ok := fa.X.(*ssa.Alloc); ok {
+					// member of a local struct cell (a spilled by-value parameter object or a composite literal)
+					if srcs, ok := an.localFieldSources(al, []int{fa.Field}, 0); ok && len(srcs) > 0 {
+						var got *Atom
+						var gneg bool
+						same := true
+						for _, s := range srcs {
+							a, n := an.atomOf(s, depth+1)
+							if a == nil || got != nil && (got.Key != a.Key || gneg != n) {
+								same = false
+								break
+							}
+							got, gneg = a, n
+						}
+						if same && got != nil {
+							return got, gneg
+						}
+					}
+				}
 				if n := namedOf(derefType(fa.X.Type())); n != nil {
 					if st, ok := n.Underlying().(*types.Struct); ok && isBoolType(st.Field(fa.Field).Type()) {
 						return &Atom{Key: "field:" + n.Obj().Name() + "." + st.Field(fa.Field).Name()}, false
@@ -243,6 +262,27 @@ func (an *Analysis) atomOf(v ssa.Value, depth int) (*Atom, bool) {
 		}
 	case *ssa.BinOp:
 		return an.binAtom(x, depth)
+	case *ssa.Field:
+		// a member of a struct value (parameter object): the atom of what was stored into that member,
+		// when every source agrees
+		srcs, ok := an.fieldSources(x.X, []int{x.Field}, 0)
+		if !ok || len(srcs) == 0 {
+			return nil, false
+		}
+		var got *Atom
+		var gneg bool
+		for _, s := range srcs {
+			a, n := an.atomOf(s, depth+1)
+			if a == nil {
+				return nil, false
+			}
+			if got == nil {
+				got, gneg = a, n
+			} else if got.Key != a.Key || gneg != n {
+				return nil, false
+			}
+		}
+		return got, gneg
 	case *ssa.Call:
 		return an.callAtom(x, -1)
 	case *ssa.Extract:
@@ -295,6 +335,83 @@ func (an *Analysis) atomOf(v ssa.Value, depth int) (*Atom, bool) {
 	return nil, false
 }
 
+// fieldSources resolves member `path` of the struct value v to the values stored into it: through by-value
+// parameters (every caller's argument), loads of local struct cells (member stores of the composite literal) and
+// nested member selections. ok=false when some source cannot be resolved.
+func (an *Analysis) fieldSources(v ssa.Value, path []int, depth int) ([]ssa.Value, bool) {
+	if depth > 6 {
+		return nil, false
+	}
+	if len(path) == 0 {
+		return []ssa.Value{v}, true
+	}
+	switch x := v.(type) {
+	case *ssa.Field:
+		return an.fieldSources(x.X, append([]int{x.Field}, path...), depth+1)
+	case *ssa.Parameter:
+		fn := x.Parent()
+		idx := paramIndex(fn, x)
+		callers := an.P.Callers(fn)
+		if len(callers) == 0 {
+			return nil, false
+		}
+		var out []ssa.Value
+		for _, cs := range callers {
+			arg := argForParam(cs.Instr.Common(), fn, idx)
+			if arg == nil {
+				return nil, false
+			}
+			r, ok := an.fieldSources(arg, path, depth+1)
+			if !ok {
+				return nil, false
+			}
+			out = append(out, r...)
+		}
+		return out, true
+	case *ssa.UnOp:
+		if x.Op != token.MUL {
+			return nil, false
+		}
+		if fa, ok := x.X.(*ssa.FieldAddr); ok {
+			if al, ok := fa.X.(*ssa.Alloc); ok {
+				return an.localFieldSources(al, append([]int{fa.Field}, path...), depth+1)
+			}
+			return nil, false
+		}
+		al, ok := x.X.(*ssa.Alloc)
+		if !ok {
+			return nil, false
+		}
+		return an.localFieldSources(al, path, depth+1)
+	}
+	return nil, false
+}
+
+// localFieldSources: the values stored into member `path` of the local struct cell al (whole-value stores and
+// member stores).
+func (an *Analysis) localFieldSources(al *ssa.Alloc, path []int, depth int) ([]ssa.Value, bool) {
+	{
+		var out []ssa.Value
+		okAll := true
+		for _, st := range an.P.cellStores(al) {
+			r, ok := an.fieldSources(st.Val, path, depth+1)
+			if !ok {
+				okAll = false
+			}
+			out = append(out, r...)
+		}
+		an.P.fieldStoresOfBase(al, path[0], func(sv ssa.Value) {
+			r, ok := an.fieldSources(sv, path[1:], depth+1)
+			if !ok {
+				okAll = false
+			}
+			out = append(out, r...)
+		})
+		return out, okAll
+	}
+	return nil, false
+}
+
 func (an *Analysis) binAtom(x *ssa.BinOp, depth int) (*Atom, bool) {
 	if x.Op != token.EQL && x.Op != token.NEQ && x.Op != token.LSS && x.Op != token.LEQ && x.Op != token.GTR && x.Op != token.GEQ {
 		return nil, false
@@ -307,7 +424,7 @@ func (an *Analysis) binAtom(x *ssa.BinOp, depth int) (*Atom, bool) {
 	}
 	rc, ok := r.(*ssa.Const)
 	if !ok {
-		return nil, false
+		return an.exceedsAtom(x)
 	}
 	// bool compare with constant
 	if b, ok := constBool(rc); ok && (op == token.EQL || op == token.NEQ) {
@@ -401,6 +518,70 @@ func (an *Analysis) binAtom(x *ssa.BinOp, depth int) (*Atom, bool) {
 	return nil, false
 }
 
+// exceedsAtom: `age OP <decoded request directive value>` with age derived from the freshness record's age (or the
+// current-age function): the atom "<cls>.<directive>.exceeded" (age >= value; `>` is folded into it).
+func (an *Analysis) exceedsAtom(x *ssa.BinOp) (*Atom, bool) {
+	dirVal := func(v ssa.Value) (string, bool) {
+		ex, ok := an.canon(v).(*ssa.Extract)
+		if !ok || ex.Index != 0 {
+			return "", false
+		}
+		ac, ok := ex.Tuple.(*ssa.Call)
+		if !ok {
+			return "", false
+		}
+		sc := ac.Call.StaticCallee()
+		if sc == nil {
+			return "", false
+		}
+		di, isAcc := an.A.DirAcc[sc]
+		if !isAcc || !di.Tuple || len(ac.Call.Args) == 0 {
+			return "", false
+		}
+		cls := di.Class
+		if cls == "rsT" {
+			cls = an.DirClass(ac.Call.Args[0])
+		}
+		return cls + "." + di.Directive, true
+	}
+	isAge := func(v ssa.Value) bool {
+		hit := false
+		an.P.TraceBack(v, TraceOpts{ThroughOps: true, ThroughExtern: true, NoParams: true, NoHeapFields: true}, func(y ssa.Value, _ []int) bool {
+			if hit {
+				return false
+			}
+			if fa, ok := y.(*ssa.FieldAddr); ok && an.A.FreshT != nil && isPtrToNamed(fa.X.Type(), an.A.FreshT) && fa.Field == an.A.FreshAge {
+				hit = true
+			}
+			if c, ok := y.(*ssa.Call); ok && an.A.F("currentAge") != nil && c.Call.StaticCallee() == an.A.F("currentAge") {
+				hit = true
+			}
+			return !hit
+		})
+		return hit
+	}
+	op := x.Op
+	l, r := x.X, x.Y
+	name, ok := dirVal(r)
+	if !ok {
+		if name, ok = dirVal(l); !ok {
+			return nil, false
+		}
+		l, r = r, l
+		op = swapTok(op)
+	}
+	if name != "rq.max-age" || !isAge(l) {
+		return nil, false
+	}
+	switch op {
+	case token.GEQ, token.GTR:
+		return &Atom{Key: name + ".exceeded"}, false
+	case token.LSS, token.LEQ:
+		return &Atom{Key: name + ".exceeded"}, true
+	}
+	return nil, false
+}
+
 func fieldName(t types.Type, idx int) string {
 	st, ok := derefType(t).Underlying().(*types.Struct)
 	if !ok || idx >= st.NumFields() {
@@ -414,6 +595,16 @@ func (an *Analysis) canon(v ssa.Value) ssa.Value {
 	for i := 0; i < 4; i++ {
 		u, ok := v.(*ssa.UnOp)
 		if !ok || u.Op != token.MUL {
+			return v
+		}
+		if fa, ok := u.X.(*ssa.FieldAddr); ok {
+			// member of a local struct written exactly once
+			if al, ok := fa.X.(*ssa.Alloc); ok {
+				if srcs, ok := an.localFieldSources(al, []int{fa.Field}, 0); ok && len(srcs) == 1 {
+					v = srcs[0]
+					continue
+				}
+			}
 			return v
 		}
 		al, ok := u.X.(*ssa.Alloc)
